@@ -6,6 +6,7 @@ mod u1;
 mod u10;
 mod u2;
 mod u3;
+mod u6;
 mod u9;
 mod util;
 
@@ -26,6 +27,8 @@ fn main() {
     ("u2", "replay") => u2::replay(rest),
     ("u10", "find") => u10::find(rest),
     ("u10", "replay") => u10::replay(rest),
+    ("u6", "find") => u6::find(rest),
+    ("u6", "replay") => u6::replay(rest),
     ("u9", "find") => u9::find(rest),
     ("u9", "replay") => u9::replay(rest),
     _ => {
